@@ -475,6 +475,31 @@ def run_pspace(ctx):
                     ctx.violation('legacy2', 'pspace;' + family(uf), 'dtype', ufunc=nm, flavour=pn)
             except Exception as e:
                 ctx.violation('legacy2', cfg, 'raises:' + type(e).__name__, ufunc=nm, message=str(e)[:200])
+        # second operand that is not a member of the space: broadcast against the parts (scalar; for power spaces an
+        # element of the base space - in the nested square case it has as many parts as the outer space)
+        others = [('scalar', 2.5, lambda b: 2.5)]
+        if getattr(p, 'is_power_space', False):
+            y0 = util.rand_element(p[0], rng)
+            y0l = leafs(y0)
+            nb = len(y0l)
+            others.append(('base-space-element', y0, lambda b, y0l=y0l, nb=nb: None))
+        for oname, other, _f in others:
+            for nm in ('add', 'multiply', 'maximum'):
+                uf = getattr(np, nm)
+                ctx.ev('differential')
+                ctx.case('pspace;%s;%s;other=%s' % (pn, nm, oname), 0)
+                cfg = 'pspace-%s;%s;other=%s' % (pn, family(uf), oname)
+                try:
+                    r = getattr(x.ufuncs, nm)(other)
+                    rl = leafs(r)
+                    if oname == 'scalar':
+                        refs = [uf(b, 2.5) for b in xs]
+                    else:
+                        refs = [uf(b, y0l[i % nb]) for i, b in enumerate(xs)]
+                    if len(rl) != len(refs) or not all(np.array_equal(a, b, equal_nan=True) for a, b in zip(rl, refs)):
+                        ctx.violation('legacy2', cfg, 'value', ufunc=nm)
+                except Exception as e:
+                    ctx.violation('legacy2', cfg, 'raises:' + type(e).__name__, ufunc=nm, message=str(e)[:200])
         # two-output legacy
         for nm in ('modf', 'frexp'):
             uf = getattr(np, nm)
